@@ -11,12 +11,12 @@ from leanfmt import lean_list, lean_str
 
 ID = "C15"
 LEAN_MODULES = ["EzdxfVerif.Props.C15"]
-DRIVER_DEPS = ["EzdxfVerif.Model.BBox", "EzdxfVerif.Gen.BBoxKernels", "Drivers.Proto"]
+DRIVER_DEPS = ["EzdxfVerif.Model.BBox", "EzdxfVerif.Model.BBoxTree", "EzdxfVerif.Gen.BBoxKernels", "Drivers.Proto"]
 RULE = (
     "correspondence X1 (box algebra): every ordered pair of a structured grid of boxes (empty, zero-size point, flat, "
     "touching at a face/edge/corner, nested, properly overlapping, disjoint, inverted corners written through the public "
     "attributes) for BoundingBox and BoundingBox2d and the mixed 2d/3d calls: union, intersection, has_intersection, "
-    "has_overlap, contains, is_empty, size, center; every box x every grid point: inside, extend; point lists: constructor, "
+    "has_overlap, contains, is_empty, size, center, rect_vertices, cube_vertices; every box x every grid point: inside, extend; point lists: constructor, "
     "extend, all_inside, any_inside; grow for values around the ValueError threshold; exact comparison (inputs are "
     "multiples of 1/4, results converted with Fraction(float)). X2 (Bezier): Bezier4P/Bezier3P.point (default = Cython "
     "class and the pure Python twin) for dyadic control points and t = k/8, exact. X3 (cache protocol): the model of "
@@ -39,7 +39,36 @@ RULE = (
     "entities with 1-4 boundary paths (polyline paths whose first segment is a bulge, edge paths starting with an arc). "
     "O4: the set-theoretic reading of union/intersection/"
     "has_overlap/has_intersection/contains/inside/extend/grow/all_inside/any_inside on the real classes over the same "
-    "grid of boxes, with per-axis interval logic written independently of the model."
+    "grid of boxes, with per-axis interval logic written independently of the model. "
+    "Session 3: X4 (precise_bbox loop): random multi-paths (1-4 sub-paths, sub-paths starting with a line, a cubic or a "
+    "quadratic curve, dyadic coordinates) with the two curve-box functions of ezdxf.path.tools replaced by an exact stub (box "
+    "of the control points of the segment, which depends on the pen position): precise_bbox, control_vertices box, "
+    "path.bbox(fast=False/True) vs the hand model AND vs the loop body generated from the current source; exact. "
+    "X5 (cubic_bezier_bbox): curves whose derivative has a prescribed root structure per axis (two rational roots in or "
+    "outside (0,1), double root, complex roots, linear, constant, zero) so that every square root is exact: "
+    "cubic_bezier_bbox, quadratic_bezier_bbox and precise_bbox of a multi-path line/MOVE_TO/curve with the REAL curve boxes vs "
+    "the hand model and vs the per-axis kernel generated from the source, compared on the grid 2^-20. X6 (entity trees): "
+    "documents with nested INSERTs (depth <= 3, base points, non-uniform/negative scale, rotation by multiples of 90 degrees "
+    "and by the rational 3-4-5 angles, so that shears and with them the explode fall-back occur) over LINE/POINT/LWPOLYLINE/"
+    "POLYLINE/3DFACE/SOLID: per top-level entity the flat stream of (cache key, box) of to_primitives(recursive_decompose()), "
+    "extents without and with a fresh cache, nesting depth vs the tree model (the MODEL computes the INSERT and MINSERT grid matrices "
+    "from base point, scale, cos/sin, insert point, grid; MINSERT at top level and inside blocks), grid 2^-20. X3 now uses one cache "
+    "with both values of `fast` (the flag is part of the key) and, for a quarter of the documents, Cache(uuid=True): virtual entities are then "
+    "stored under their uuid, which is new on every decomposition - the model receives fresh keys (>= 2^41) for them and the cache contents "
+    "are compared as handle-keyed entries plus the multiset of the boxes of the uuid-keyed entries, hits and misses exactly. X7 (selection shapes): select.Window / select.Circle "
+    "is_inside_bbox / is_outside_bbox / is_overlapping_bbox on boxes and shapes in quarters (circle inside a large box, crossing one "
+    "edge, touching, enclosing) vs the model and vs the kernel generated from Circle.is_overlapping_bbox; exact. "
+    "X8 (primitive fast box): Primitive.bbox(fast=True) of every primitive of generated documents (all entity kinds, tilted extrusions, "
+    "virtual entities of nested INSERTs) = model Path.box = box of the control vertices resp. mesh vertices, exact; and "
+    "Primitive.bbox(fast=False) == precise_bbox(path) exactly (no shortcut per entity type). X3 additionally contains "
+    "compute/modify/invalidate/compute histories (`inval` step: entities moved, a random subset incl. uncached ones - HATCH, a new "
+    "POINT - invalidated in random order, cache content compared), O2 the same history on the real code against cache-less results. "
+    "non-trivial = a MOVE_TO is present (X4), always (X5, X7), nesting depth >= 1 (X6). "
+    "oracle O6: select.bbox_inside/bbox_outside/bbox_overlap for Window and Circle on generated documents, with and without cache, "
+    "against the set-theoretic reading computed here (per-axis intervals; closest-point / farthest-corner distance for the circle). "
+    "oracle O7: cubic_bezier_arc_parameters (accelerated twin) for random start angles, sweeps and segment counts against the closed "
+    "form of the radial error proved in arc_bezier_radial_error (|B(t)|^2 - 1 = u^6 w^2 (1-w^2)^2 / (1+u^2)^2, 1e-12), segment angle "
+    "<= 90 degrees, segments joined, radial bounds [1, 1.0004]."
 )
 TRUSTED_BASE = [
     "the mini symbolic executor in harness/props/c15.py (Python AST of the predicates -> Lean Bool/Rat expressions); its output "
@@ -47,17 +76,41 @@ TRUSTED_BASE = [
     "IEEE double arithmetic is exact for the small dyadic inputs of the correspondence streams (+, -, *, min, max, comparisons)",
     "numpy min/max over axis 0 = columnwise minimum/maximum",
     "the oracle's independent geometry sampler (OCS arbitrary-axis algorithm, bulge arcs, de Boor evaluation, block transformation) in harness/props/c15.py",
+    "session 3: the two small translators translate_precise_step / translate_cubic (ScalarExec) in harness/props/c15.py (loop body of "
+    "precise_bbox per command type; per-axis body of cubic_bezier_bbox incl. try/except around math.sqrt, the unrolled `for t in "
+    "(q / a, c / q)`; text of everything around the loops is pinned); their output is proved equal to the hand model "
+    "(kernel_precise_step, kernel_cubic_params, kernel_quad_elevation) and run against the code (X4, X5)",
+    "X6: the mapping recipe entity -> model leaf (vertex list) in tree_points() and the rational cos/sin of the rotation angle; "
+    "rounding to the grid 2^-20 (inputs have <= 2 fractional bits resp. denominators 5^k, far from the rounding boundaries)",
+    "select: distances are compared through their squares in the model (radius >= 0); math.hypot is exact enough on the quarter-valued X7 inputs",
+    "IEEE sqrt/division are exact on the X5 inputs (perfect-square discriminants, dyadic roots) up to the grid",
+    "arcs: the tangent half-angle substitution u = tan(segment_angle/4) links the rational model (rotByQuarterTan) to angles; the link is "
+    "PROVED (rotQ_trig in Lemmas/BBoxArc.lean) for real angles; floating point trigonometry of the code is compared numerically (O7, 1e-12)",
 ]
 ASSUMPTIONS = [
     "coordinates are finite numbers (inf/nan inputs other than the empty-box sentinel are outside the model)",
-    "cache_transparent assumes one box per key: one Cache object used with one value of `fast` and unmodified entities (the cache key does not contain the flag; mixing is reported by the oracle as known finding C15-F4)",
+    "cache_transparent assumes one box per key: unmodified entities between the calls (the `fast` flag is part of the key since fix 20e7078cb; in the model the key is handle*2+flag)",
+    "the exact-arithmetic theorems on cubic_bezier_bbox (cubic_axis_extrema, cubic_bbox_contains_curve, real_path_boxes containment) assume AxisOK: "
+    "math.sqrt exact at the discriminant and coefficients a, b of the derivative that are either 0 or not below abs_tol (tiny non-zero "
+    "leading coefficients are the domain of the oracle O3: classes tiny-a / cancellation); the fast>=precise and the tightness statements need no hypothesis",
+    "tree theorems: INSERTs inside blocks carry no ATTRIBs (Forest.plainBlocks; the explode fall-back of the code does not yield them - text entities, outside this property), "
+    "no cyclic block definitions, extrusion (0,0,1) for the INSERT matrix of the model (insertAff); a MINSERT is the wrapper `minsert` around its grid copies",
+    "the quantitative statements (*_tol) assume only 0 < abs_tol and AxisSqrtOK: every square root that is actually taken is exact",
     "text entities (TEXT/MTEXT/ATTRIB content boxes are estimates by design) are outside the oracle's tightness check",
 ]
 OPEN = [
-    "containment/tightness of precise mode for Bezier-approximated arcs/ellipses/splines (root finding with sqrt, curve "
-    "approximation) is not proved: oracle within the flattening distance only",
-    "recursive_decompose / virtual_entities / OCS transformation of nested INSERTs are not modelled (oracle only); "
-    "nested_bbox is not stated",
+    "circular arcs (ARC, CIRCLE, bulges; ELLIPSE by affine invariance): proved now over the reals that the Bezier curves built from "
+    "cubic_bezier_arc_parameters have Hausdorff distance <= 0.0004 r from the true arc (arc_segment_covers, arc_curve_in_sector, "
+    "arc_hausdorff, arc_path_covers); NOT proved: the bookkeeping of make_path around it (start/end angle normalisation, OCS, bulge -> arc "
+    "conversion) and the SPLINE approximations (cubic_bezier_approximation for degree != 3 / rational: known finding F3); oracle O1",
+    "cubic_bezier_bbox with an INEXACT sqrt (floating point rounding of math.sqrt and of the divisions) is not a theorem (oracle O3); "
+    "tiny non-zero coefficients ARE covered now (cubic_axis_extrema_tol: at most 5/3 abs_tol)",
+    "OCS of an INSERT with a tilted extrusion, entity.transform() of curved entities under non-uniform scaling (ARC -> ELLIPSE) and the "
+    "representability test of Insert.transform are not in the tree model (C12 proves the INSERT algebra; here oracle O1; the tree theorems "
+    "hold for EVERY representability predicate)",
+    "the modification step of the cache histories is outside the model: the theorem invalidate_then_extents takes the old and the new "
+    "truth function (box per key) as given",
+    "select.Polygon and bbox_crosses_fence (Cohen-Sutherland clipping, documented as approximate for concave polygons) are not modelled",
     "has_intersection_iff_interiors_meet is proved for boxes of positive size; the behaviour on zero-size operands is "
     "stated separately as the code behaves (has_intersection_point)",
 ]
@@ -66,6 +119,10 @@ BBOX_PY = "src/ezdxf/math/bbox.py"
 BEZ4_PY = "src/ezdxf/math/_bezier4p.py"
 BEZ3_PY = "src/ezdxf/math/_bezier3p.py"
 EZBBOX_PY = "src/ezdxf/bbox.py"
+TOOLS_PY = "src/ezdxf/path/tools.py"
+CMDS_PY = "src/ezdxf/path/commands.py"
+CURVETOOLS_PY = "src/ezdxf/math/curvetools.py"
+SELECT_PY = "src/ezdxf/select.py"
 
 
 # ====================================================================== translator (T-ast, light)
@@ -282,7 +339,365 @@ def _fingerprint(fn) -> str:
     return hashlib.sha256("\n".join(ast.dump(s) for s in body).encode()).hexdigest()[:16]
 
 
-def translate(src_bbox: str, src_b4: str, src_b3: str, src_ez: str) -> str:
+# ---------------------------------------------------------------- session 3: precise_bbox loop, cubic_bezier_bbox
+def _func(tree, name):
+    for n in tree.body:
+        if isinstance(n, ast.FunctionDef) and n.name == name:
+            return n
+    raise Unsupported(f"function {name} not found")
+
+
+def _body(fn):
+    return [s for s in fn.body if not _is_doc(s)]
+
+
+def translate_precise_step(src_tools: str, src_cmds: str) -> str:
+    """The loop body of `ezdxf.path.tools.precise_bbox`, executed once per command type: which points are appended
+    and what the pen position `start` is afterwards.  Everything around the loop is pinned by text."""
+    enum = None
+    for n in ast.parse(src_cmds).body:
+        if isinstance(n, ast.ClassDef) and n.name == "Command":
+            enum = {s.targets[0].id: s.value.value for s in n.body if isinstance(s, ast.Assign)}
+    if not enum or sorted(enum) != ["CURVE3_TO", "CURVE4_TO", "LINE_TO", "MOVE_TO"]:
+        raise Unsupported(f"Command enum {enum}")
+    fn = _func(ast.parse(src_tools), "precise_bbox")
+    body = _body(fn)
+    if [a.arg for a in fn.args.args] != ["path"] or len(body) != 5:
+        raise Unsupported("precise_bbox: signature/shape")
+    pro = [ast.unparse(s) for s in body[:3]]
+    if pro != ["if len(path) == 0:\n    return BoundingBox()", "start = path.start", "points: list[Vec3] = [start]"]:
+        raise Unsupported(f"precise_bbox prologue {pro}")
+    loop = body[3]
+    if not (isinstance(loop, ast.For) and ast.unparse(loop.target) == "cmd" and ast.unparse(loop.iter) == "path.commands()" and not loop.orelse):
+        raise Unsupported("precise_bbox: loop header")
+    if ast.unparse(body[4]) != "return BoundingBox(points)":
+        raise Unsupported("precise_bbox: epilogue")
+
+    class Stop(Exception):
+        pass
+
+    def ev(e, env):
+        if isinstance(e, ast.Name) and e.id in env:
+            return env[e.id]
+        if isinstance(e, ast.Attribute) and isinstance(e.value, ast.Name):
+            if e.value.id == "cmd" and e.attr in ("end", "ctrl", "ctrl1", "ctrl2"):
+                return {"end": "cmdEnd"}.get(e.attr, e.attr)
+            base = env.get(e.value.id)
+            if isinstance(base, tuple) and base[0] == "box" and e.attr in ("extmin", "extmax"):
+                return f"({e.attr} {base[1]})"
+        if isinstance(e, ast.Call) and isinstance(e.func, ast.Name) and len(e.args) == 1 and not e.keywords:
+            inner = e.args[0]
+            want = {"cubic_bezier_bbox": ("Bezier4P", 4, "bb4"), "quadratic_bezier_bbox": ("Bezier3P", 3, "bb3")}.get(e.func.id)
+            if want and isinstance(inner, ast.Call) and isinstance(inner.func, ast.Name) and inner.func.id == want[0] \
+                    and len(inner.args) == 1 and isinstance(inner.args[0], ast.Tuple) and len(inner.args[0].elts) == want[1]:
+                return ("box", "(" + want[2] + " " + " ".join(ev(x, env) for x in inner.args[0].elts) + ")")
+        raise Unsupported(f"precise_bbox: expression {ast.unparse(e)}")
+
+    def run(stmts, env, pts, ty):
+        for s in stmts:
+            if isinstance(s, ast.Continue):
+                raise Stop
+            if isinstance(s, ast.If):
+                tst = s.test
+                if not (isinstance(tst, ast.Compare) and len(tst.ops) == 1 and isinstance(tst.ops[0], ast.Eq)
+                        and ast.unparse(tst.left) == "cmd.type" and ast.unparse(tst.comparators[0]).startswith("Command.")):
+                    raise Unsupported(f"precise_bbox: test {ast.unparse(tst)}")
+                name = ast.unparse(tst.comparators[0])[len("Command."):]
+                if name not in enum:
+                    raise Unsupported(f"precise_bbox: unknown command {name}")
+                run(s.body if name == ty else s.orelse, env, pts, ty)
+            elif isinstance(s, ast.Assign) and len(s.targets) == 1 and isinstance(s.targets[0], ast.Name):
+                env[s.targets[0].id] = ev(s.value, env)
+            elif isinstance(s, ast.Expr) and isinstance(s.value, ast.Call) and ast.unparse(s.value.func) in ("points.append", "points.extend") \
+                    and len(s.value.args) == 1:
+                v = ev(s.value.args[0], env)
+                if ast.unparse(s.value.func) == "points.append":
+                    if not isinstance(v, str):
+                        raise Unsupported("precise_bbox: append of a box")
+                    pts.append(v)
+                else:  # extend(box): BoundingBox.__iter__ yields extmin, extmax
+                    if not (isinstance(v, tuple) and v[0] == "box"):
+                        raise Unsupported("precise_bbox: extend of a non-box")
+                    pts += [f"(extmin {v[1]})", f"(extmax {v[1]})"]
+            else:
+                raise Unsupported(f"precise_bbox: statement {ast.unparse(s)[:60]!r}")
+
+    arms = []
+    for ty, code in sorted(enum.items(), key=lambda kv: kv[1]):
+        env, pts = {"start": "start"}, []
+        try:
+            run(loop.body, env, pts, ty)
+        except Stop:
+            pass
+        if not isinstance(env["start"], str):
+            raise Unsupported("precise_bbox: pen position is not a point")
+        arms.append(f"if ty = {code} then ([{', '.join(pts)}], {env['start']})  -- {ty}")
+    return ("/-- the loop body of `ezdxf.path.tools.precise_bbox` for the command type `ty` (values of `Command`): the points\n"
+            "    appended to `points` and the pen position `start` afterwards -/\n"
+            "def preciseStep {α β : Type} (bb4 : α → α → α → α → β) (bb3 : α → α → α → β) (extmin extmax : β → α)\n"
+            "    (ty : Nat) (start cmdEnd ctrl1 ctrl2 ctrl : α) : List α × α :=\n  "
+            + "\n  else ".join(arms) + "\n  else ([], start)\n\n"
+            "def commandCodes : List (String × Nat) := "
+            + lean_list((f"({lean_str(k)}, {v})" for k, v in sorted(enum.items(), key=lambda kv: kv[1])), per_line=4) + "\n")
+
+
+class ScalarExec:
+    """continuation-passing symbolic execution of the per-axis loop body of `cubic_bezier_bbox` over Lean `Rat` terms"""
+
+    def __init__(self, names):
+        self.names = names  # python name -> lean term
+        self.fresh = {}
+
+    def ev(self, e, env):
+        if isinstance(e, ast.Constant) and isinstance(e.value, (int, float)) and not isinstance(e.value, bool):
+            return _num(e.value)
+        if isinstance(e, ast.Name):
+            if e.id in env:
+                return env[e.id]
+            if e.id in self.names:
+                return self.names[e.id]
+            raise Unsupported(f"unbound {e.id}")
+        if isinstance(e, ast.UnaryOp) and isinstance(e.op, ast.USub):
+            return f"(-{self.ev(e.operand, env)})"
+        if isinstance(e, ast.BinOp) and type(e.op) in ARITH:
+            return f"({self.ev(e.left, env)} {ARITH[type(e.op)]} {self.ev(e.right, env)})"
+        if isinstance(e, ast.Call) and not e.keywords:
+            f = ast.unparse(e.func)
+            args = [self.ev(a, env) for a in e.args]
+            if f == "abs" and len(args) == 1:
+                return f"(pyAbs {args[0]})"
+            if f == "math.copysign" and len(args) == 2:
+                return f"(pyCopysign {args[0]} {args[1]})"
+        raise Unsupported(f"scalar expression {ast.unparse(e)}")
+
+    def cond(self, e, env):
+        if isinstance(e, ast.Compare):
+            parts, left = [], self.ev(e.left, env)
+            for op, right in zip(e.ops, e.comparators):
+                r = self.ev(right, env)
+                if type(op) not in CMP:
+                    raise Unsupported("comparison")
+                parts.append(f"{left} {CMP[type(op)]} {r}")
+                left = r
+            return " ∧ ".join(parts)
+        raise Unsupported(f"condition {ast.unparse(e)}")
+
+    def run(self, stmts, env, pts) -> str:
+        if not stmts:
+            return "[" + ", ".join(pts) + "]"
+        s, rest = stmts[0], stmts[1:]
+        if isinstance(s, ast.Continue):
+            return "[" + ", ".join(pts) + "]"
+        if isinstance(s, ast.Assign) and len(s.targets) == 1 and isinstance(s.targets[0], ast.Name):
+            name = s.targets[0].id
+            val = self.ev(s.value, env)
+            env = dict(env)
+            self.fresh[name] = self.fresh.get(name, 0) + 1  # every assignment binds a new Lean name (no shadowing)
+            lean_name = name if self.fresh[name] == 1 else f"{name}_{self.fresh[name]}"
+            env[name] = lean_name
+            return f"(let {lean_name} := {val}\n  {self.run(rest, env, pts)})"
+        if isinstance(s, ast.If):
+            c = self.cond(s.test, env)
+            return f"(if {c} then {self.run(list(s.body) + rest, env, pts)} else {self.run(list(s.orelse) + rest, env, pts)})"
+        if isinstance(s, ast.Try):
+            ok = (len(s.body) == 1 and isinstance(s.body[0], ast.Assign) and isinstance(s.body[0].targets[0], ast.Name)
+                  and isinstance(s.body[0].value, ast.Call) and ast.unparse(s.body[0].value.func) == "math.sqrt"
+                  and len(s.handlers) == 1 and ast.unparse(s.handlers[0].type) == "ValueError" and not s.orelse and not s.finalbody)
+            if not ok:
+                raise Unsupported("try statement")
+            arg = self.ev(s.body[0].value.args[0], env)
+            var = s.body[0].targets[0].id
+            env2 = dict(env)
+            env2[var] = var
+            return (f"(match sqrt {arg} with\n  | none => {self.run(list(s.handlers[0].body) + rest, env, pts)}\n"
+                    f"  | some {var} => {self.run(rest, env2, pts)})")
+        if isinstance(s, ast.For) and isinstance(s.iter, ast.Tuple) and isinstance(s.target, ast.Name) and not s.orelse:
+            for n in ast.walk(s):
+                if isinstance(n, (ast.Continue, ast.Break)):
+                    raise Unsupported("continue/break inside the inner loop")
+            flat = []
+            for i, el in enumerate(s.iter.elts):
+                flat.append(ast.Assign(targets=[ast.Name(id=s.target.id, ctx=ast.Store())], value=el))
+                flat += list(s.body)
+            return self.run(flat + rest, env, pts)
+        if isinstance(s, ast.Expr) and isinstance(s.value, ast.Call) and ast.unparse(s.value.func) == "points.append" and len(s.value.args) == 1:
+            a = s.value.args[0]
+            if isinstance(a, ast.Call) and ast.unparse(a.func) == "curve.point" and len(a.args) == 1:
+                return self.run(rest, env, pts + [self.ev(a.args[0], env)])
+        raise Unsupported(f"statement {ast.unparse(s)[:60]!r}")
+
+
+def translate_cubic(src_ct: str) -> str:
+    tree = ast.parse(src_ct)
+    fn = _func(tree, "cubic_bezier_bbox")
+    body = _body(fn)
+    if [a.arg for a in fn.args.args] != ["curve"] or [a.arg for a in fn.args.kwonlyargs] != ["abs_tol"] or len(body) != 4:
+        raise Unsupported("cubic_bezier_bbox: signature/shape")
+    if [ast.unparse(s) for s in body[:2]] != ["cp = curve.control_points", "points: list[Vec3] = [cp[0], cp[3]]"]:
+        raise Unsupported("cubic_bezier_bbox: prologue")
+    loop = body[2]
+    if not (isinstance(loop, ast.For) and ast.unparse(loop.target).strip("()") == "p1, p2, p3, p4" and ast.unparse(loop.iter) == "zip(*cp)" and not loop.orelse):
+        raise Unsupported("cubic_bezier_bbox: loop header")
+    if ast.unparse(body[3]) != "return BoundingBox(points)":
+        raise Unsupported("cubic_bezier_bbox: epilogue")
+    ex = ScalarExec({"p1": "p1", "p2": "p2", "p3": "p3", "p4": "p4", "abs_tol": "absTol"})
+    term = ex.run(list(loop.body), {}, [])
+    out = ("/-- the per-axis loop body of `cubic_bezier_bbox`: the parameters `t` for which `curve.point(t)` is appended;\n"
+           "    `sqrt x = none` = `math.sqrt` raised ValueError -/\n"
+           "def cubicAxisParams (absTol : Rat) (sqrt : Rat → Option Rat) (p1 p2 p3 p4 : Rat) : List Rat :=\n  " + term + "\n\n")
+    q = _body(_func(tree, "quadratic_bezier_bbox"))
+    if len(q) != 1 or ast.unparse(q[0]) != "return cubic_bezier_bbox(quadratic_to_cubic_bezier(curve), abs_tol=abs_tol)":
+        raise Unsupported("quadratic_bezier_bbox is not cubic_bezier_bbox(quadratic_to_cubic_bezier(curve))")
+    e = _body(_func(tree, "quadratic_to_cubic_bezier"))
+    if len(e) != 4 or ast.unparse(e[0]).replace("(", "").replace(")", "") != "start, control, end = curve.control_points" \
+            or ast.unparse(e[3]) != "return Bezier4P((start, control_1, control_2, end))":
+        raise Unsupported("quadratic_to_cubic_bezier: shape")
+    ex = ScalarExec({"start": "start", "control": "control", "end": "end_"})
+    for st, name in ((e[1], "control_1"), (e[2], "control_2")):
+        if not (isinstance(st, ast.Assign) and ast.unparse(st.targets[0]) == name):
+            raise Unsupported("quadratic_to_cubic_bezier: assignments")
+        out += (f"/-- one coordinate of `{name}` of `quadratic_to_cubic_bezier` -/\n"
+                f"def quad{name.title().replace('_', '')} (start control end_ : Rat) : Rat :=\n  {ex.ev(st.value, {})}\n\n")
+    return out
+
+
+def translate_vertices(src_bbox: str) -> str:
+    """`rect_vertices` (shared by both classes) and `BoundingBox.cube_vertices`: the corner lists"""
+    tree = ast.parse(src_bbox)
+    out = ""
+    for cls, meth, name, dims in (("AbstractBoundingBox", "rect_vertices", "rectVertices", (2, 3)), ("BoundingBox", "cube_vertices", "cubeVertices", (3,))):
+        fn = _methods(tree, cls)[meth]
+        body = _body(fn)
+        if not (len(body) == 1 and isinstance(body[0], ast.If) and ast.unparse(body[0].test) == "self.has_data"
+                and [ast.unparse(s) for s in body[0].orelse] == ["raise ValueError('empty bounding box')"]):
+            raise Unsupported(f"{meth}: shape")
+        for dim in dims:
+            lo, hi = _vec("lo", dim), _vec("hi", dim)
+            env = {}
+            ret = None
+            for s in body[0].body:
+                if isinstance(s, ast.Assign) and isinstance(s.targets[0], ast.Tuple) and ast.unparse(s.value) in ("self.extmin", "self.extmax"):
+                    src = lo if ast.unparse(s.value) == "self.extmin" else hi
+                    elts = s.targets[0].elts
+                    plain = [e for e in elts if not isinstance(e, ast.Starred)]
+                    if len(plain) > len(src) or (len(plain) != len(src) and not isinstance(elts[-1], ast.Starred)):
+                        raise Unsupported(f"{meth}: unpacking")
+                    for e, v in zip(plain, src):
+                        env[e.id] = v
+                elif isinstance(s, ast.Return) and isinstance(s.value, ast.Tuple):
+                    ret = s.value.elts
+                else:
+                    raise Unsupported(f"{meth}: statement {ast.unparse(s)[:50]!r}")
+            if ret is None:
+                raise Unsupported(f"{meth}: no return")
+            pts = []
+            for e in ret:
+                if not (isinstance(e, ast.Call) and isinstance(e.func, ast.Name) and e.func.id in ("Vec2", "Vec3") and all(isinstance(a, ast.Name) and a.id in env for a in e.args)):
+                    raise Unsupported(f"{meth}: element {ast.unparse(e)}")
+                pts.append("(" + ", ".join(env[a.id] for a in e.args) + ")")
+            n = 2 if meth == "rect_vertices" else 3
+            ty = " × ".join(["Rat"] * n)
+            out += (f"/-- `{cls}.{meth}` of a {dim}d box with data -/\n"
+                    f"def {name}{dim} {_binders(lo + hi)} : List ({ty}) :=\n  [{', '.join(pts)}]\n\n")
+    return out
+
+
+def pin_invalidate(src_ez: str) -> None:
+    """`Cache.invalidate`: one loop over ALL entities; per entity the key and the removal of both entries without any exit"""
+    for n in ast.parse(src_ez).body:
+        if isinstance(n, ast.ClassDef) and n.name == "Cache":
+            fn = {f.name: f for f in n.body if isinstance(f, ast.FunctionDef)}["invalidate"]
+            body = _body(fn)
+            want = ["key = self._get_key(entity)", "self._boxes.pop((key, False), None)", "self._boxes.pop((key, True), None)"]
+            ok = (len(body) == 1 and isinstance(body[0], ast.For) and ast.unparse(body[0].target) == "entity"
+                  and ast.unparse(body[0].iter) == "entities" and not body[0].orelse and [ast.unparse(s) for s in body[0].body] == want)
+            if not ok:
+                raise Unsupported("Cache.invalidate is not `for entity in entities: key = ...; pop((key, False)); pop((key, True))`")
+            return
+    raise Unsupported("class Cache not found")
+
+
+def translate_select(src_select: str) -> str:
+    """`select.Circle.is_overlapping_bbox`: the point that is tested (closest point of the box); the one-line methods of
+    Window and Circle are pinned by text"""
+    tree = ast.parse(src_select)
+    win, cir = _methods(tree, "Window"), _methods(tree, "Circle")
+
+    def one(fn, want):
+        body = _body(fn)
+        got = [ast.unparse(s) for s in body]
+        if got != want:
+            raise Unsupported(f"select: {fn.name} is {got}")
+
+    one(win["__init__"], ["self._bbox = BoundingBox2d((p1, p2))"])
+    one(win["is_inside_bbox"], ["return self._bbox.contains(entity_bbox)"])
+    one(win["is_outside_bbox"], ["return not self._bbox.has_overlap(entity_bbox)"])
+    one(win["is_overlapping_bbox"], ["return self._bbox.has_overlap(entity_bbox)"])
+    one(cir["__init__"], ["self._center = Vec2(center)", "self._radius = float(radius)", "r_vec = Vec2(self._radius, self._radius)",
+                          "self._bbox = BoundingBox2d((self._center - r_vec, self._center + r_vec))"])
+    one(cir["_is_vertex_inside"], ["return self._center.distance(v) <= self._radius"])
+    one(cir["is_inside_bbox"], ["return all((self._is_vertex_inside(v) for v in entity_bbox.rect_vertices()))"])
+    one(cir["is_outside_bbox"], ["return not self.is_overlapping_bbox(entity_bbox)"])
+    attrs = {("entity_bbox", "extmin"): ("lox", "loy"), ("entity_bbox", "extmax"): ("hix", "hiy"), ("self", "_center"): ("cx", "cy")}
+
+    def ret(ex, v, env):
+        if v == ("bool", "false"):
+            return "none"
+        if isinstance(v, tuple) and v and v[0] == "vi":
+            return f"some ({v[1][0]}, {v[1][1]})"
+        raise Unsupported(f"select: return of {v!r}")
+
+    calls = {"self._bbox.has_overlap": lambda args: ("bool", "ho"), "self._is_vertex_inside": lambda args: ("vi", args[0])}
+
+    class Ex(SymExec):
+        def ev(self, e, env):
+            if isinstance(e, ast.Name) and e.id == "entity_bbox":
+                return Opaque("entity_bbox")
+            return super().ev(e, env)
+
+    ex = Ex({}, attrs, ret, lambda env: (_ for _ in ()).throw(Unsupported("raise")), lambda env: (_ for _ in ()).throw(Unsupported("end")), calls)
+    body = ex.run(cir["is_overlapping_bbox"].body, {})
+    return ("/-- `select.Circle.is_overlapping_bbox`: `none` = False, `some v` = `self._is_vertex_inside(v)`; `ho` =\n"
+            "    `self._bbox.has_overlap(entity_bbox)` -/\n"
+            f"def circleOverlap (ho : Bool) (cx cy lox loy hix hiy : Rat) : Option (Rat × Rat) :=\n  {body}\n\n")
+
+
+def translate_arc(src_b4: str) -> str:
+    """`cubic_bezier_arc_parameters` (Python twin): the two control point formulas and the tangent factor; the statements that
+    fix the segment count (<= 90 degrees per segment) and the tangent length are pinned by text"""
+    tree = ast.parse(src_b4)
+    consts = {}
+    for n in tree.body:
+        if isinstance(n, ast.Assign) and len(n.targets) == 1 and isinstance(n.targets[0], ast.Name) and n.targets[0].id.endswith("TANGENT_FACTOR"):
+            consts[n.targets[0].id] = ast.unparse(n.value)
+    if consts.get("TANGENT_FACTOR") != "DEFAULT_TANGENT_FACTOR" or consts.get("DEFAULT_TANGENT_FACTOR") != "4.0 / 3.0":
+        raise Unsupported(f"tangent factor {consts}")
+    fn = _func(tree, "cubic_bezier_arc_parameters")
+    text = [ast.unparse(s) for s in ast.walk(fn) if isinstance(s, (ast.Assign, ast.AnnAssign))]
+    for want in ("delta_angle: float = end_angle - start_angle", "arc_count = max(math.ceil(delta_angle / math.pi * 2.0), segments)",
+                 "segment_angle: float = delta_angle / arc_count", "tangent_length: float = TANGENT_FACTOR * math.tan(segment_angle / 4.0)",
+                 "end_point: Vec3 = Vec3.from_angle(angle)", "start_point = end_point", "end_point = Vec3.from_angle(angle)"):
+        if want not in text:
+            raise Unsupported(f"cubic_bezier_arc_parameters: missing {want!r}")
+    loop = [s for s in fn.body if isinstance(s, ast.For)]
+    if len(loop) != 1 or ast.unparse(loop[0].body[-1]) != "yield (start_point, control_point_1, control_point_2, end_point)":
+        raise Unsupported("cubic_bezier_arc_parameters: loop")
+    out = "/-- `TANGENT_FACTOR` -/\ndef arcTangentFactor : Rat := (4 : Rat) / 3\n\n"
+    for s in loop[0].body:
+        if isinstance(s, ast.Assign) and ast.unparse(s.targets[0]) in ("control_point_1", "control_point_2"):
+            name = ast.unparse(s.targets[0])
+            ex = SymExec({}, {}, None, None, None)
+            v = ex.ev(s.value, {"start_point": ("px", "py"), "end_point": ("px", "py"), "tangent_length": "L"})
+            if not (isinstance(v, tuple) and len(v) == 2):
+                raise Unsupported(f"{name} is not a 2d expression")
+            out += (f"/-- `{name}` of `cubic_bezier_arc_parameters` (x, y); `p` = the start resp. end point of the segment -/\n"
+                    f"def arc{name.title().replace('_', '')} (px py L : Rat) : Rat × Rat :=\n  ({v[0]}, {v[1]})\n\n")
+    if out.count("def arcControlPoint") != 2:
+        raise Unsupported("cubic_bezier_arc_parameters: control point assignments")
+    return out
+
+
+def translate(src_bbox: str, src_b4: str, src_b3: str, src_ez: str, extra: str = "") -> str:
     tree = ast.parse(src_bbox)
     abstract = _methods(tree, "AbstractBoundingBox")
     out = []
@@ -408,13 +823,17 @@ namespace EzdxfVerif.Gen.BBoxKernels
 def pyMin (a b : Rat) : Rat := if b < a then b else a
 /-- Python `max(a, b)`: the later argument wins only if strictly greater -/
 def pyMax (a b : Rat) : Rat := if b > a then b else a
+/-- Python `abs(x)` -/
+def pyAbs (x : Rat) : Rat := if x < 0 then -x else x
+/-- `math.copysign(x, y)` (y = -0.0 is outside the model) -/
+def pyCopysign (x y : Rat) : Rat := if y < 0 then -(pyAbs x) else pyAbs x
 
 """
     tail = ("/-- sha256 prefixes of the AST of methods that are modelled by hand and tied by correspondence only -/\n"
             "def fingerprints : List (String × String) := "
             + lean_list((f"({lean_str(a)}, {lean_str(b)})" for a, b in fps), per_line=2)
             + "\n\nend EzdxfVerif.Gen.BBoxKernels\n")
-    return head + "\n".join(out) + "\n" + tail
+    return head + "\n".join(out) + "\n" + extra + tail
 
 
 def regenerate(ctx):
@@ -422,7 +841,11 @@ def regenerate(ctx):
     texts = [ctx.src(s) for s in srcs]
     for extra in ("src/ezdxf/disassemble.py", "src/ezdxf/path/tools.py", "src/ezdxf/math/curvetools.py", "src/ezdxf/acc/bezier4p.pyx"):
         ctx.src(extra)
-    ctx.write_gen("BBoxKernels", translate(*texts), srcs)
+    pin_invalidate(texts[3])
+    extra_srcs = [TOOLS_PY, CMDS_PY, CURVETOOLS_PY, SELECT_PY]
+    tools, cmds, ct, sel = (ctx.src(s) for s in extra_srcs)
+    extra = translate_precise_step(tools, cmds) + "\n" + translate_cubic(ct) + translate_select(sel) + translate_arc(texts[1]) + translate_vertices(texts[0])
+    ctx.write_gen("BBoxKernels", translate(*texts, extra=extra), srcs + extra_srcs)
 
 
 # ====================================================================== implementation side of X1/X2
@@ -494,6 +917,16 @@ def impl_box(a, dim) -> str:
         e.extend(a)  # the `_extends.extend(box)` idiom of ezdxf.bbox
         out.append(show_box(e))
     out.append(tf(wf))
+
+    def verts(f):
+        try:
+            return "/".join(show_v(v) for v in f())
+        except ValueError:
+            return "ValueError"
+
+    out.append(verts(a.rect_vertices))
+    if dim == 3:
+        out.append(verts(a.cube_vertices))
     return ";".join(out)
 
 
@@ -1024,16 +1457,39 @@ def _key(cache, entity):
     return None if h is None or h == "0" else int(h, 16)
 
 
-def _kstr(k):
-    return "n" if k is None else str(k)
+def _kstr(k, fast=False):
+    """model key: the `fast` flag is part of the cache key (handle * 2 + flag)"""
+    return "n" if k is None else str(2 * k + int(bool(fast)))
 
 
-def cache_state(cache) -> str:
-    ents = sorted((int(k, 16), b) for k, b in cache._boxes.items())
-    return "~".join(f"{k}={show_box(b)}" for k, b in ents) + f"|{cache.hits}|{cache.misses}"
+def _split_key(k):
+    return (k[0], bool(k[1])) if isinstance(k, tuple) else (k, False)
 
 
-def ents_str(entities, fast) -> str:
+FRESH_BASE = 2 ** 41  # model keys >= FRESH_BASE stand for uuid keys (Cache(uuid=True)); they are compared as a multiset of boxes
+
+
+def _is_uuid_key(k) -> bool:
+    return "-" in _split_key(k)[0]
+
+
+def cache_state(cache, for_model=False, counter=None) -> str:
+    """handle-keyed entries as `key=box` sorted by key; uuid-keyed entries (virtual entities, Cache(uuid=True)) as `u=box`
+    sorted by text - for the model request they get fresh numeric keys"""
+    items = list(cache._boxes.items())
+    ents = sorted((2 * int(_split_key(k)[0], 16) + int(_split_key(k)[1]), b) for k, b in items if not _is_uuid_key(k))
+    virt = sorted(show_box(b) for k, b in items if _is_uuid_key(k))
+    parts = [f"{k}={show_box(b)}" for k, b in ents]
+    if for_model:
+        parts += [f"{FRESH_BASE + next(counter)}={s}" for s in virt]
+    else:
+        parts += [f"u={s}" for s in virt]
+    return "~".join(parts) + f"|{cache.hits}|{cache.misses}"
+
+
+def ents_str(entities, fast, counter=None) -> str:
+    """`counter` is given for Cache(uuid=True): every primitive of a virtual entity gets a fresh key (its uuid is new on
+    every decomposition), HATCH primitives stay without key"""
     from ezdxf import bbox, disassemble
 
     probe = bbox.Cache()
@@ -1043,8 +1499,13 @@ def ents_str(entities, fast) -> str:
         for p in disassemble.to_primitives(disassemble.recursive_decompose([e])):
             if p.is_empty:
                 continue
-            prims.append(f"{_kstr(_key(probe, p.entity))}={show_box(p.bbox(fast=fast))}")
-        out.append(f"{_kstr(_key(probe, e))}:" + "&".join(prims))
+            k = _key(probe, p.entity)
+            if k is None and counter is not None and p.entity.dxftype() != "HATCH":
+                ks = str(FRESH_BASE + next(counter))
+            else:
+                ks = _kstr(k, fast)
+            prims.append(f"{ks}={show_box(p.bbox(fast=fast))}")
+        out.append(f"{_kstr(_key(probe, e), fast)}:" + "&".join(prims))
     return ";".join(out)
 
 
@@ -1083,20 +1544,51 @@ def correspond_cache(ctx):
     cases = []
     for d in range(ctx.n(120, 800)):
         doc, ents = x3_doc(rng)
-        fast = rng.random() < 0.3
-        cache = bbox.Cache()
+        fast0 = rng.random() < 0.3
+        mix = rng.random() < 0.35  # one cache used with both values of `fast` (the flag is part of the key)
+        uuid_mode = rng.random() < 0.25  # Cache(uuid=True): virtual entities are cached under their (always new) uuid
+        cache = bbox.Cache(uuid=uuid_mode)
+        counter = itertools.count() if uuid_mode else None
         calls = [("flat", ents, True), ("flat", ents, True), ("rec", rng.sample(ents, max(1, len(ents) // 2)), True),
                  ("flat", rng.sample(ents, max(1, len(ents) // 2)), True), ("flat", ents, False), ("rec", ents, False)]
         if rng.random() < 0.5:
             calls.insert(0, ("rec", rng.sample(ents, max(1, len(ents) // 2)), True))
+        # compute / modify / invalidate / compute: after the first calls the entities are moved, some of them are invalidated (in
+        # any order, uncached entities - HATCH, a new entity - in front or in between), then the calls go on
+        calls.insert(rng.randint(2, len(calls)), ("inval", None, True))
+        calls += [("flat", ents, True), ("rec", rng.sample(ents, max(1, len(ents) // 2)), True)]
         for fn, sub, uc in calls:
-            pre = cache_state(cache) if uc else "|0|0"
-            es = ents_str(sub, fast)
+            if fn == "inval":
+                uniq = list({id(e): e for e in ents}.values())
+                for e in uniq:
+                    if rng.random() < 0.7:
+                        try:
+                            e.translate(rng.randint(-8, 8) / 4, rng.randint(-8, 8) / 4, 0)
+                        except Exception:  # noqa
+                            pass
+                todo = [e for e in uniq if rng.random() < 0.6] or uniq[:1]
+                if rng.random() < 0.5:
+                    todo.append(doc.modelspace().add_point((rc(rng), rc(rng))))  # never measured
+                if rng.random() < 0.3:
+                    todo.append(todo[0])  # twice
+                rng.shuffle(todo)
+                keys = []
+                for e in todo:
+                    k = _key(bbox.Cache(), e)
+                    keys += ["n"] if k is None else [str(2 * k), str(2 * k + 1)]
+                pre = cache_state(cache, for_model=True, counter=counter)
+                cache.invalidate(iter(todo))
+                cases.append((f"inval|{pre}|{','.join(keys)}", cache_state(cache), True))
+                ctx.hist(S, "invalidate" + ("/uuid" if uuid_mode else ""))
+                continue
+            fast = (rng.random() < 0.5) if mix else fast0
+            pre = cache_state(cache, for_model=True, counter=counter) if uc else "|0|0"
+            es = ents_str(sub, fast, counter if uc else None)
             c = cache if uc else None
             if fn == "flat":
                 clone = None
                 if uc:
-                    clone = bbox.Cache()
+                    clone = bbox.Cache(uuid=uuid_mode)
                     clone._boxes, clone.hits, clone.misses = dict(cache._boxes), cache.hits, cache.misses
                 yields = list(bbox.multi_flat(sub, fast=fast, cache=c))
                 total = bbox.extents(sub, fast=fast, cache=clone)
@@ -1110,7 +1602,343 @@ def correspond_cache(ctx):
             post = cache_state(cache) if uc else "|0|0"
             req = f"cache|{fn}|{1 if uc else 0}|{pre}|{es}"
             cases.append((req, "~".join(show_box(y) for y in yields) + "|" + show_box(total) + "|" + post, uc))
-            ctx.hist(S, f"{fn}/{'cache' if uc else 'plain'}")
+            ctx.hist(S, f"{fn}/{'cache' if uc else 'plain'}{'/mixed-fast' if mix else ''}{'/uuid' if uuid_mode else ''}")
+    ctx.correspond(S, "C15", cases, build=DRIVER_DEPS)
+
+
+# ====================================================================== X4-X6 (session 3): paths, cubic boxes, entity trees
+GRID = 2 ** 20
+
+
+def gridv(x) -> int:
+    return math.floor(float(x) * GRID + 0.5)
+
+
+def grid_box(b) -> str:
+    if not b.has_data:
+        return "E"
+    return ",".join(str(gridv(c)) for c in tuple(b.extmin) + tuple(b.extmax))
+
+
+def fr3(p) -> str:
+    return ",".join(str(Fraction(c)) for c in p)
+
+
+def cmds_str(cmds) -> str:
+    out = []
+    for c in cmds[1:]:
+        out.append({"M": "M", "L": "L", "C4": "C4", "C3": "C3"}[c[0]] + ":" + ":".join(fr3(q) for q in c[1:]))
+    return f"{fr3(cmds[0][1])}|" + ";".join(out)
+
+
+def gen_multipath(rng, pt):
+    """commands of a random multi-path: sub-paths (after MOVE_TO) start with a line, a cubic or a quadratic curve"""
+    cmds = [("S", pt(0.0))]
+    for sub in range(rng.randint(1, 4)):
+        off = rng.choice([0.0, 0.0, 30.0, -50.0])
+        if sub:
+            cmds.append(("M", pt(off)))
+        for k in range(rng.randint(1, 3)):
+            kind = rng.choice(["C4", "C4", "C3", "L"]) if k == 0 else rng.choice(["L", "L", "C4", "C3"])
+            cmds.append({"L": ("L", pt(off)), "C4": ("C4", pt(off), pt(off), pt(off)), "C3": ("C3", pt(off), pt(off))}[kind])
+    return cmds
+
+
+def correspond_paths(ctx):
+    """X4: the loop of precise_bbox (pen position, MOVE_TO, what is appended), control_vertices and path.bbox on multi-paths
+    with dyadic coordinates; the two curve-box functions are replaced by an exact stub (box of the segment's control
+    points, which depends on the pen position) so that the comparison is exact"""
+    from ezdxf import path as ezpath
+    from ezdxf.path import tools as ptools
+    from ezdxf.math import BoundingBox
+
+    S = "X4 precise_bbox loop"
+    rng = ctx.rng("x4")
+    cases = []
+    saved = (ptools.cubic_bezier_bbox, ptools.quadratic_bezier_bbox)
+    ptools.cubic_bezier_bbox = lambda curve, **kw: BoundingBox(curve.control_points)
+    ptools.quadratic_bezier_bbox = lambda curve, **kw: BoundingBox(curve.control_points)
+    try:
+        for n in range(ctx.n(1500, 12000)):
+            cmds = gen_multipath(rng, lambda o: [o + rng.randint(-40, 40) / 4 for _ in range(3)])
+            if rng.random() < 0.05:
+                cmds = cmds[:1]  # a path without commands
+            p = _multipath(cmds)
+            pb = ptools.precise_bbox(p)
+            fb = BoundingBox(p.control_vertices())
+            impl = ";".join([show_box(pb), show_box(pb), show_box(fb), show_box(ptools.bbox([p], fast=False)), show_box(ptools.bbox([p], fast=True))])
+            nsub = len([c for c in cmds if c[0] == "M"])
+            cases.append((f"pathstub|{cmds_str(cmds)}", impl, nsub > 0))
+            ctx.hist(S, "sub-paths=%d" % (nsub + 1))
+    finally:
+        ptools.cubic_bezier_bbox, ptools.quadratic_bezier_bbox = saved
+    ctx.correspond(S, "C15", cases, build=DRIVER_DEPS)
+
+
+def _axis_from_derivative(rng):
+    """control values p0..p3 (dyadic) of one coordinate whose derivative a t^2 + b t + c has a prescribed root structure;
+    returns (values, label)"""
+    mode = rng.choice(["two", "two", "two", "double", "complex", "linear", "linear", "const", "flat"])
+    m = rng.choice([1, -1, 2, -2, 3])
+    if mode in ("two", "double"):
+        k1 = rng.randint(-4, 12)
+        k2 = k1 if mode == "double" else rng.randint(-4, 12)
+        a = Fraction(384 * m)
+        b = -a * Fraction(k1 + k2, 8)
+        c = a * Fraction(k1 * k2, 64)
+    elif mode == "complex":
+        a = Fraction(3 * rng.choice([1, 2, 4, -1, -4]))
+        b = Fraction(6 * rng.randint(-3, 3))
+        cmin = (b * b / (4 * a))
+        c = Fraction(3 * (int(abs(cmin)) // 3 + rng.randint(1, 3))) * (1 if a > 0 else -1)
+    elif mode == "linear":
+        a = Fraction(0)
+        b = Fraction(6 * rng.choice([1, -1, 2, 4, -3, 8]))
+        c = Fraction(3 * rng.randint(-8, 8)) / rng.choice([1, 2, 4])
+    elif mode == "const":
+        a, b, c = Fraction(0), Fraction(0), Fraction(3 * rng.randint(-4, 4)) / rng.choice([1, 4, 8])
+    else:
+        a, b, c = Fraction(0), Fraction(0), Fraction(0)
+    p0 = Fraction(rng.randint(-40, 40), 4)
+    p1 = p0 + c / 3
+    p2 = b / 6 - p0 + 2 * p1
+    p3 = a / 3 + p0 - 3 * p1 + 3 * p2
+    return [p0, p1, p2, p3], mode
+
+
+def correspond_cubic(ctx):
+    """X5: cubic_bezier_bbox / quadratic_bezier_bbox / precise_bbox with the REAL curve boxes on curves whose derivative
+    has rational roots (exact square roots): model (hand model and the kernel generated from the source) vs code, compared
+    on the grid 2^-20"""
+    from ezdxf.math import Bezier4P, Bezier3P, Vec3, cubic_bezier_bbox, quadratic_bezier_bbox
+    from ezdxf import path as ezpath
+
+    S = "X5 cubic_bezier_bbox"
+    rng = ctx.rng("x5")
+    cases = []
+    for n in range(ctx.n(2500, 20000)):
+        axes = [_axis_from_derivative(rng) for _ in range(3)]
+        P = [[float(axes[i][0][j]) for i in range(3)] for j in range(4)]
+        if any(Fraction(P[j][i]) != axes[i][0][j] for i in range(3) for j in range(4)):
+            continue
+        box = cubic_bezier_bbox(Bezier4P([Vec3(q) for q in P]))
+        g = grid_box(box)
+        cases.append((f"cubic|{fr3(P[0])}|{fr3(P[1])}|{fr3(P[2])}|{fr3(P[3])}", f"{g};{g};T", True))
+        ctx.hist(S, "/".join(sorted(a[1] for a in axes)))
+        if n % 3 == 0:
+            # a quadratic curve with a rational extremum: B'(t) = 2 ((p1 - p0) + t (p0 - 2 p1 + p2))
+            Q = [[rng.randint(-40, 40) / 4 for _ in range(3)] for _ in range(3)]
+            qb = quadratic_bezier_bbox(Bezier3P([Vec3(q) for q in Q]))
+            g = grid_box(qb)
+            cases.append((f"quad|{fr3(Q[0])}|{fr3(Q[1])}|{fr3(Q[2])}", f"{g};{g}", True))
+            ctx.hist(S, "quadratic")
+        if n % 4 == 0:
+            # a multi-path: line, MOVE_TO, then the curve (pen position = MOVE_TO target), real curve boxes
+            s0 = [rng.randint(-40, 40) / 4 for _ in range(3)]
+            cmds = [("S", s0), ("L", [rng.randint(-40, 40) / 4 for _ in range(3)]), ("M", P[0]), ("C4", P[1], P[2], P[3])]
+            pb = ezpath.precise_bbox(_multipath(cmds))
+            cases.append((f"pathreal|{cmds_str(cmds)}", grid_box(pb) + ";T", True))
+            ctx.hist(S, "multi-path")
+    ctx.correspond(S, "C15", cases, build=DRIVER_DEPS)
+
+
+ROTS = [(1, 0), (1, 0), (0, 1), (-1, 0), (0, -1), (Fraction(4, 5), Fraction(3, 5)), (Fraction(3, 5), Fraction(-4, 5)), (Fraction(-3, 5), Fraction(4, 5))]
+
+
+def gen_tree_entity(rng, blocks):
+    kinds = ["LINE", "LINE", "POINT", "LWPOLYLINE", "POLYLINE3D", "3DFACE", "SOLID"] + (["INSERT"] * 4 if blocks else [])
+    k = rng.choice(kinds)
+    c = lambda lo=-10, hi=10: rng.randint(lo * 4, hi * 4) / 4
+    if k == "LINE":
+        return {"t": k, "start": [c(), c(), c()], "end": [c(), c(), c()]}
+    if k == "POINT":
+        return {"t": k, "location": [c(), c(), c()]}
+    if k == "LWPOLYLINE":
+        n = rng.randint(2, 5)
+        return {"t": k, "points": [[c(), c(), 0] for _ in range(n)], "closed": rng.random() < 0.4, "elevation": c(-3, 3), "extrusion": [0, 0, 1]}
+    if k == "POLYLINE3D":
+        return {"t": k, "points": [[c(), c(), c()] for _ in range(rng.randint(2, 5))], "closed": rng.random() < 0.3}
+    if k == "3DFACE":
+        return {"t": k, "points": [[c(), c(), c()] for _ in range(4)]}
+    if k == "SOLID":
+        return {"t": k, "points": [[c(), c()] for _ in range(4)], "elevation": c(-3, 3), "extrusion": [0, 0, 1]}
+    s = lambda: rng.choice([1, 1, 2, 0.5, -1, -2, 1.5, -0.5])
+    sx = s()
+    cs = rng.choice(ROTS)
+    return {"t": "INSERT", "name": rng.choice(blocks), "insert": [c(), c(), c(-3, 3)],
+            "scale": [sx, sx, sx] if rng.random() < 0.4 else [sx, s(), s()], "cs": [str(Fraction(cs[0])), str(Fraction(cs[1]))],
+            "rotation": math.degrees(math.atan2(float(cs[1]), float(cs[0]))), "extrusion": [0, 0, 1],
+            "grid": [rng.randint(1, 3), rng.randint(1, 2), c(1, 6), c(1, 6)] if rng.random() < 0.2 else None}
+
+
+def tree_points(e):
+    """the vertices of a straight entity in WCS/block coordinates (extrusion (0,0,1) only)"""
+    t = e["t"]
+    if t == "LINE":
+        return [e["start"], e["end"]]
+    if t == "POINT":
+        return [e["location"], e["location"]]
+    if t == "LWPOLYLINE":
+        pts = [[x, y, e["elevation"]] for x, y, _b in e["points"]]
+        return pts + ([pts[0]] if e["closed"] else [])
+    if t == "POLYLINE3D":
+        return e["points"] + ([e["points"][0]] if e["closed"] else [])
+    if t == "3DFACE":
+        return e["points"]
+    if t == "SOLID":
+        return [[x, y, e["elevation"]] for x, y in e["points"]]
+    raise ValueError(t)
+
+
+def tree_tokens(e, blocks, key) -> list:
+    """forest grammar of the driver: F := N | L key pts F | J key base scale cos,sin insert F(block) F(rest)
+    | G key base scale cos,sin insert cols,rows,colspacing,rowspacing F(block) F(rest)   (MINSERT, mcount > 1)"""
+    if e["t"] != "INSERT":
+        return ["L", key, ";".join(fr3(p) for p in tree_points(e))]
+    blk = next(b for b in blocks if b["name"] == e["name"])
+    head = [key, fr3(blk["base"]), fr3(e["scale"]), ",".join(e["cs"]), fr3(e["insert"])]
+    grid = e.get("grid")
+    if grid and grid[0] * grid[1] > 1:
+        out = ["G"] + head + [",".join(str(Fraction(v)) for v in grid)]
+    else:
+        out = ["J"] + head
+    for ce in blk["entities"]:  # the forest of the block, closed by N; the rest of the enclosing forest follows
+        out += tree_tokens(ce, blocks, "n")
+    return out + ["N"]
+
+
+def tree_depth(e, blocks) -> int:
+    """nesting depth as the model counts it: a MINSERT is a wrapper around its grid copies"""
+    if e["t"] != "INSERT":
+        return 0
+    blk = next(b for b in blocks if b["name"] == e["name"])
+    grid = e.get("grid")
+    return (1 if grid and grid[0] * grid[1] > 1 else 0) + 1 + max([tree_depth(c, blocks) for c in blk["entities"]], default=0)
+
+
+def correspond_tree(ctx):
+    """X6: recursive_decompose + to_primitives + Primitive.bbox + extents on documents with nested INSERTs (depth <= 3;
+    translation, base point, non-uniform and negative scale, rotations by multiples of 90 degrees and by the rational
+    angles of the 3-4-5 triangle, so that shears -> the explode fall-back occur; MINSERT grids at top level and inside blocks)
+    vs the tree model; the model computes the INSERT matrices (insertAff, gridAff) from base point, scale, cos/sin and
+    insert point; boxes compared on the grid 2^-20"""
+    from ezdxf import bbox, disassemble
+
+    S = "X6 entity trees"
+    rng = ctx.rng("x6")
+    cases = []
+    for d in range(ctx.n(250, 2500)):
+        depth = rng.choice([1, 2, 2, 3, 3])
+        blocks = []
+        for i in range(rng.randint(1, 4)):
+            names = [b["name"] for b in blocks if b["level"] < depth]
+            ents = [gen_tree_entity(rng, names) for _ in range(rng.randint(1, 3))]
+            level = 1 + max([next(b["level"] for b in blocks if b["name"] == e["name"]) for e in ents if e["t"] == "INSERT"], default=0)
+            blocks.append({"name": f"B{i}", "base": [rng.choice([0, 0, rng.randint(-12, 12) / 4]) for _ in range(3)], "entities": ents, "level": level})
+        names = [b["name"] for b in blocks]
+        recipe = {"blocks": blocks, "msp": [gen_tree_entity(rng, names) for _ in range(rng.randint(1, 4))]}
+        if rng.random() < 0.8 and not any(e["t"] == "INSERT" for e in recipe["msp"]):
+            e = gen_tree_entity(rng, names)
+            while e["t"] != "INSERT":
+                e = gen_tree_entity(rng, names)
+            recipe["msp"].insert(rng.randint(0, len(recipe["msp"])), e)
+        doc, ents = build_doc(recipe)
+        fast = rng.random() < 0.5
+        impl = []
+        for e, ent in zip(recipe["msp"], ents):
+            key = str(int(ent.dxf.handle, 16))
+            prims = []
+            for pr in disassemble.to_primitives(disassemble.recursive_decompose([ent])):
+                if pr.is_empty:
+                    continue
+                h = pr.entity.dxf.handle
+                prims.append(("n" if h is None or h == "0" else str(int(h, 16))) + "=" + grid_box(pr.bbox(fast=fast)))
+            impl.append(f"{key}:" + "&".join(prims))
+        # forest grammar: F := N | L key pts F | I key matrix F(block) F(rest)
+        toks = []
+        for e, ent in zip(recipe["msp"], ents):
+            toks += tree_tokens(e, blocks, str(int(ent.dxf.handle, 16)))
+        toks.append("N")
+        total = bbox.extents(ents, fast=fast)
+        cached = bbox.extents(ents, fast=fast, cache=bbox.Cache())
+        dep = max([tree_depth(e, blocks) for e in recipe["msp"]], default=0)
+        if any(e["t"] == "INSERT" and e.get("grid") and e["grid"][0] * e["grid"][1] > 1 for b in blocks + [{"entities": recipe["msp"]}] for e in b["entities"]):
+            ctx.hist(S, "with MINSERT")
+        req = f"tree|{1 if fast else 0}|{d % 2}|" + " ".join(toks)
+        cases.append((req, ";".join(impl) + "|" + grid_box(total) + "|" + grid_box(cached) + "|" + str(dep), dep > 0))
+        ctx.hist(S, "depth=%d" % dep)
+    ctx.correspond(S, "C15", cases, build=DRIVER_DEPS)
+
+
+def correspond_select(ctx):
+    """X7: select.Window / select.Circle is_inside_bbox, is_outside_bbox, is_overlapping_bbox on boxes and shapes with
+    coordinates in quarters (squared distances exact; circles inside large boxes, crossing an edge, touching, enclosing)"""
+    from ezdxf import select
+    from ezdxf.math import BoundingBox2d
+
+    S = "X7 selection shapes"
+    rng = ctx.rng("x7")
+    cases = []
+    q = lambda lo, hi: rng.randint(lo * 4, hi * 4) / 4
+    for n in range(ctx.n(4000, 30000)):
+        lo = (q(-10, 10), q(-10, 10))
+        ext = (rng.choice([0, 0.25, 1, 3, 8, 20, 40]), rng.choice([0, 0.25, 1, 3, 8, 20, 40]))
+        hi = (lo[0] + ext[0], lo[1] + ext[1])
+        b = BoundingBox2d([lo, hi])
+        bs = spec_str((lo, hi))
+        if n % 2:
+            c = (q(-12, 32), q(-12, 32)) if rng.random() < 0.6 else (rng.choice([lo[0], hi[0], (lo[0] + hi[0]) / 2]) + rng.choice([-3, -1, 0, 1, 4]),
+                                                                  rng.choice([lo[1], hi[1], (lo[1] + hi[1]) / 2]) + rng.choice([-4, 0, 3]))
+            r = rng.choice([0, 0.25, 0.5, 1, 2, 5, 13, 25, 60])
+            s = select.Circle(c, r)
+            impl = ";".join([tf(s.is_inside_bbox(b)), tf(s.is_outside_bbox(b)), tf(s.is_overlapping_bbox(b)), tf(s.is_overlapping_bbox(b))])
+            cases.append((f"selc|{fr(c[0])},{fr(c[1])}|{fr(r)}|{bs}", impl, True))
+            ctx.hist(S, "circle")
+        else:
+            p1, p2 = (q(-12, 32), q(-12, 32)), (q(-12, 32), q(-12, 32))
+            s = select.Window(p1, p2)
+            impl = ";".join([tf(s.is_inside_bbox(b)), tf(s.is_outside_bbox(b)), tf(s.is_overlapping_bbox(b))])
+            cases.append((f"selw|{fr(p1[0])},{fr(p1[1])}|{fr(p2[0])},{fr(p2[1])}|{bs}", impl, True))
+            ctx.hist(S, "window")
+    ctx.correspond(S, "C15", cases, build=DRIVER_DEPS)
+
+
+def correspond_primitives(ctx):
+    """X8: Primitive.bbox(fast=True) of EVERY primitive of generated documents (all entity kinds of the oracle generator, tilted
+    extrusions, nested INSERTs whose virtual entities get tilted OCS) is the box of the control vertices of its path resp. of
+    its mesh vertices: the model's `Path.box ... true`; the vertices are passed as exact fractions of the floats; exact"""
+    from ezdxf import disassemble
+
+    S = "X8 primitive fast box"
+    rng = ctx.rng("x8")
+    cases = []
+    for d in range(ctx.n(60, 600)):
+        recipe = gen_recipe(rng, rng.randint(2, 5), rng.randint(0, 3), 2)
+        try:
+            doc, ents = build_doc(recipe)
+        except Exception:  # noqa  (reported by O1)
+            continue
+        for pr in disassemble.to_primitives(disassemble.recursive_decompose(ents)):
+            if pr.is_empty:
+                continue
+            if pr.path is not None:
+                kind, pts = "path", list(pr.path.control_vertices())
+            elif pr.mesh is not None:
+                kind, pts = "mesh", list(pr.vertices())
+            else:
+                kind, pts = "mesh", list(pr.vertices())
+            if not pts or len(pts) > 400:
+                continue
+            req = f"primfast|{kind}|" + ";".join(",".join(str(Fraction(c)) for c in (v.x, v.y, v.z)) for v in pts)
+            cases.append((req, show_box(pr.bbox(fast=True)), True))
+            # precise mode of the same primitive: exactly precise_bbox(path) resp. the box of the mesh vertices (no shortcut)
+            from ezdxf.path import precise_bbox
+            from ezdxf.math import BoundingBox
+            want = precise_bbox(pr.path) if pr.path is not None else BoundingBox(pts)
+            if not same_box(pr.bbox(fast=False), want):
+                ctx.fail(f"prim/precise-box/{pr.entity.dxftype()}/{d}", f"doc {d}: Primitive.bbox(fast=False) of {pr.entity.dxftype()} = {pr.bbox(fast=False)} "
+                         f"but precise_bbox(path) = {want}", {"op": "doc", "recipe": recipe, "index": None})
+            ctx.hist(S, pr.entity.dxftype() + ("/virtual" if pr.entity.dxf.handle is None else ""))
     ctx.correspond(S, "C15", cases, build=DRIVER_DEPS)
 
 
@@ -1118,6 +1946,11 @@ def correspond(ctx):
     correspond_algebra(ctx)
     correspond_bezier(ctx)
     correspond_cache(ctx)
+    correspond_paths(ctx)
+    correspond_cubic(ctx)
+    correspond_tree(ctx)
+    correspond_select(ctx)
+    correspond_primitives(ctx)
 
 
 # ====================================================================== oracle on the real code
@@ -1257,15 +2090,56 @@ def check_consistency(ents, fast, rng):
     return bad
 
 
-def check_fast_mix(ents):
-    """one cache used with both values of `fast` (the key does not contain the flag)"""
+def check_invalidate_history(doc, ents, fast, rng):
+    """compute / modify / invalidate / compute on the real code: after invalidating at least every modified entity (together with
+    uncached ones - HATCH, a new entity -, in random order) the cached results equal the results without cache"""
     from ezdxf import bbox
 
+    uniq = list({id(e): e for e in ents}.values())
     cache = bbox.Cache()
-    bbox.extents(ents, fast=True, cache=cache)
-    got = bbox.extents(ents, fast=False, cache=cache)
-    want = bbox.extents(ents, fast=False)
-    return same_box(got, want), f"precise extents after a fast run with the same cache: {got} != {want}"
+    bbox.extents(uniq, fast=fast, cache=cache)
+    list(bbox.multi_recursive(uniq, fast=fast, cache=cache))
+    moved = [e for e in uniq if rng.random() < 0.6] or uniq[:1]
+    for e in moved:
+        try:
+            e.translate(rng.randint(-40, 40) / 4, rng.randint(-40, 40) / 4, 0)
+        except Exception:  # noqa
+            return []
+    new = doc.modelspace().add_point((rc(rng), rc(rng)))
+    todo = moved + [e for e in uniq if e not in moved and rng.random() < 0.3] + [new]
+    rng.shuffle(todo)
+    if rng.random() < 0.5:  # uncached entities first
+        todo.sort(key=lambda e: 0 if (e is new or e.dxftype() == "HATCH") else 1)
+    cache.invalidate(iter(todo))
+    allents = uniq + [new]
+    bad = []
+    want = bbox.extents(allents, fast=fast)
+    got = bbox.extents(allents, fast=fast, cache=cache)
+    if not same_box(want, got):
+        order = [e.dxftype() for e in todo]
+        bad.append(("extents", f"after modify + invalidate({order}): extents with cache {got} != {want}"))
+    wf = list(bbox.multi_flat(allents, fast=fast))
+    gf = list(bbox.multi_flat(allents, fast=fast, cache=cache))
+    if len(wf) != len(gf) or not all(same_box(a, b) for a, b in zip(wf, gf)):
+        bad.append(("flat", "after modify + invalidate: multi_flat with cache differs"))
+    return bad
+
+
+def check_fast_mix(ents):
+    """one cache used with both values of `fast`, in both orders (the flag is part of the key since fix C15-4)"""
+    from ezdxf import bbox
+
+    for first in (True, False):
+        cache = bbox.Cache()
+        bbox.extents(ents, fast=first, cache=cache)
+        got = bbox.extents(ents, fast=not first, cache=cache)
+        want = bbox.extents(ents, fast=not first)
+        if not same_box(got, want):
+            return False, f"extents(fast={not first}) after a run with fast={first} and the same cache: {got} != {want}"
+        again = bbox.extents(ents, fast=first, cache=cache)
+        if not same_box(again, bbox.extents(ents, fast=first)):
+            return False, f"extents(fast={first}) from a cache that has seen both flags differs: {again}"
+    return True, ""
 
 
 def oracle_docs(ctx):
@@ -1315,9 +2189,15 @@ def oracle_docs(ctx):
                 ents = ents + [h]
             for what, detail in check_consistency(ents, fast, rng):
                 ctx.fail(f"consistency/{what}/{d}", f"doc {d} fast={fast}: {detail}", {"op": "consistency", "recipe": recipe, "fast": fast})
-            ok, detail = check_fast_mix(ents) if d < 12 else (True, "")
+            ok, detail = check_fast_mix(ents) if d % 4 == 0 else (True, "")
             if not ok:
                 ctx.fail(f"cache/fast-mix/{d}", f"doc {d}: {detail}", {"op": "fastmix", "recipe": recipe})
+            if d % 3 == 0:  # last: it moves the entities
+                hseed = rng.randrange(1 << 30)
+                import random as _random
+                for what, detail in check_invalidate_history(doc, ents, fast, _random.Random(hseed)):
+                    ctx.fail(f"cache/invalidate/{what}/{d}", f"doc {d} fast={fast}: {detail}",
+                             {"op": "invalidate", "recipe": recipe, "fast": fast, "hseed": hseed})
         except Exception as ex:  # noqa
             ctx.fail(f"consistency/raise/{type(ex).__name__}/{d}", f"doc {d}: {ex!r}", {"op": "consistency", "recipe": recipe, "fast": fast})
     ctx.note("largest relative deviation per entity kind outside the known classes (geometry outside box / box slack, "
@@ -1609,11 +2489,129 @@ def oracle_multipath(ctx):
             ctx.fail(f"multipath/{msg.split(':')[0]}/{n}", f"path {cmds}: {msg}", {"op": "multipath", "cmds": [list(c) for c in cmds]})
 
 
+def check_select(ents, shape_spec, use_cache):
+    """ezdxf.select against the set-theoretic reading of 'bounding box inside / outside / overlapping the shape', with the
+    reference written here per axis resp. with the closest-point formula for the circle; returns list of (what, detail)"""
+    from ezdxf import bbox, select
+    from ezdxf.math import BoundingBox2d
+
+    cache = bbox.Cache() if use_cache else None
+    boxes = {}
+    for e in ents:
+        b = bbox.extents((e,), fast=True)
+        if b.has_data:
+            boxes[e.dxf.handle] = BoundingBox2d(b)
+    if shape_spec[0] == "window":
+        (x0, y0), (x1, y1) = shape_spec[1], shape_spec[2]
+        wlo, whi = (min(x0, x1), min(y0, y1)), (max(x0, x1), max(y0, y1))
+        shape = select.Window(shape_spec[1], shape_spec[2])
+
+        def ref(b):
+            inside = wlo[0] <= b.extmin.x and b.extmax.x <= whi[0] and wlo[1] <= b.extmin.y and b.extmax.y <= whi[1]
+            overlap = b.extmin.x <= whi[0] and wlo[0] <= b.extmax.x and b.extmin.y <= whi[1] and wlo[1] <= b.extmax.y
+            return inside, overlap, False
+    else:
+        (cx, cy), r = shape_spec[1], shape_spec[2]
+        shape = select.Circle(shape_spec[1], r)
+
+        def ref(b):
+            corners = [(b.extmin.x, b.extmin.y), (b.extmax.x, b.extmin.y), (b.extmax.x, b.extmax.y), (b.extmin.x, b.extmax.y)]
+            far = max(math.hypot(x - cx, y - cy) for x, y in corners)
+            px, py = min(max(cx, b.extmin.x), b.extmax.x), min(max(cy, b.extmin.y), b.extmax.y)
+            near = math.hypot(px - cx, py - cy)
+            return far <= r, near <= r, min(abs(far - r), abs(near - r)) < 1e-9  # boundary cases are not judged
+    got = {name: {e.dxf.handle for e in fn(shape, ents, cache=cache)}
+           for name, fn in (("inside", select.bbox_inside), ("outside", select.bbox_outside), ("overlap", select.bbox_overlap))}
+    bad = []
+    for h, b in boxes.items():
+        inside, overlap, skip = ref(b)
+        if skip:
+            continue
+        for name, want in (("inside", inside), ("overlap", overlap), ("outside", not overlap)):
+            if (h in got[name]) != want:
+                bad.append((f"{shape_spec[0]}-{name}", f"entity #{h} box {b}: bbox_{name}={h in got[name]} but the box is "
+                                                     f"{'' if want else 'not '}{name} the {shape_spec[0]} {shape_spec[1:]}"))
+    extra = set().union(*got.values()) - set(boxes)
+    if extra:
+        bad.append(("nodata-selected", f"entities without bounding box selected: {sorted(extra)}"))
+    return bad
+
+
+def oracle_select(ctx):
+    """O6: select.bbox_inside / bbox_outside / bbox_overlap for Window and Circle shapes (small shapes inside large boxes,
+    shapes crossing one edge, enclosing shapes) with and without cache"""
+    rng = ctx.rng("select")
+    S = "O6 select by bounding box"
+    for d in range(ctx.n(120, 1200)):
+        recipe = gen_recipe(rng, rng.randint(2, 6), rng.randint(0, 3), 2)
+        try:
+            doc, ents = build_doc(recipe)
+        except Exception:  # noqa  (reported by O1)
+            continue
+        for k in range(4):
+            c = (rc(rng, -12, 12), rc(rng, -12, 12))
+            if rng.random() < 0.5:
+                size = rng.choice([0.25, 0.5, 1, 2, 5, 12, 30])
+                spec = ("window", c, (c[0] + size, c[1] + rng.choice([0.25, 1, 4, 30])))
+            else:
+                spec = ("circle", c, rng.choice([0.25, 0.5, 1, 2, 5, 12, 30]))
+            ctx.count(S, (d, k), True)
+            ctx.hist(S, spec[0])
+            try:
+                bad = check_select(ents, spec, rng.random() < 0.5)
+            except Exception as ex:  # noqa
+                ctx.fail(f"select/raise/{type(ex).__name__}/{d}.{k}", f"doc {d} shape {spec}: {ex!r}", {"op": "select", "recipe": recipe, "shape": list(spec)})
+                continue
+            for what, detail in bad[:3]:
+                ctx.fail(f"select/{what}/{d}.{k}", f"doc {d}: {detail}", {"op": "select", "recipe": recipe, "shape": list(spec)})
+
+
+def oracle_arc(ctx):
+    """O7: cubic_bezier_arc_parameters on the real code (the accelerated twin) against the closed form proved in
+    arc_bezier_radial_error: |B(t)|^2 - 1 = u^6 w^2 (1-w^2)^2 / (1+u^2)^2 with u = tan(segment_angle/4), w = 2t-1 (1e-12);
+    segments of at most 90 degrees, start/end points on the unit circle, consecutive segments joined"""
+    import numpy as np
+    from ezdxf.math import cubic_bezier_arc_parameters
+
+    rng = ctx.rng("arc")
+    S = "O7 arc approximation"
+    ts = np.linspace(0, 1, 41)
+    w = 2 * ts - 1
+    for n in range(ctx.n(600, 6000)):
+        a0 = rng.choice([0.0, 0.5, math.pi / 2, 3.0, rng.uniform(-7, 7)])
+        sweep = rng.choice([0.01, 0.5, math.pi / 2, math.pi / 2 + 1e-9, math.pi, 4.0, math.tau, rng.uniform(1e-3, math.tau)])
+        segs = list(cubic_bezier_arc_parameters(a0, a0 + sweep, rng.choice([1, 1, 2, 5])))
+        ctx.count(S, ("a", n), True)
+        ang = sweep / len(segs)
+        u = math.tan(ang / 4)
+        bad = []
+        if ang > math.pi / 2 + 1e-12:
+            bad.append(f"segment angle {ang} > 90 degrees")
+        prev = None
+        for p0, p1, p2, p3 in segs:
+            P = [np.array([q.x, q.y]) for q in (p0, p1, p2, p3)]
+            if prev is not None and float(np.abs(P[0] - prev).max()) > 1e-12:
+                bad.append("segments are not joined")
+            prev = P[3]
+            B = ((1 - ts) ** 3)[:, None] * P[0] + (3 * (1 - ts) ** 2 * ts)[:, None] * P[1] + (3 * (1 - ts) * ts ** 2)[:, None] * P[2] + (ts ** 3)[:, None] * P[3]
+            n2 = (B ** 2).sum(1)
+            want = 1 + u ** 6 * w ** 2 * (1 - w ** 2) ** 2 / (1 + u * u) ** 2
+            dev = float(np.abs(n2 - want).max())
+            if dev > 1e-12:
+                bad.append(f"|B(t)|^2 deviates from the closed form by {dev:.3g}")
+            if float(n2.min()) < 1 - 1e-12 or float(n2.max()) > 1.0004 ** 2:
+                bad.append(f"radial bounds violated: {n2.min()} .. {n2.max()}")
+        for msg in bad[:2]:
+            ctx.fail(f"arc/{msg.split()[0]}/{n}", f"cubic_bezier_arc_parameters({a0}, {a0 + sweep}): {msg}", {"op": "arc", "a0": a0, "a1": a0 + sweep})
+
+
 def oracle(ctx):
+    oracle_arc(ctx)
     oracle_algebra(ctx)
     oracle_docs(ctx)
     oracle_bezier(ctx)
     oracle_multipath(ctx)
+    oracle_select(ctx)
 
 
 class _ReplayCtx:
@@ -1709,6 +2707,35 @@ def replay(ctx, rep):
                 b = check_multipath([tuple(c) for c in r["cmds"]])
                 if b:
                     bad.append(f"{f['key']}: {b[0]}")
+            elif r["op"] == "invalidate":
+                import random as _random
+                doc, ents = build_doc(r["recipe"])
+                if r["recipe"].get("hatch"):
+                    h = doc.modelspace().add_hatch()
+                    for path_pts in r["recipe"]["hatch"]:
+                        h.paths.add_polyline_path(path_pts, is_closed=True)
+                    ents = ents + [h]
+                b = check_invalidate_history(doc, ents, r["fast"], _random.Random(r["hseed"]))
+                if b:
+                    bad.append(f"{f['key']}: {b[0][1]}")
+            elif r["op"] == "arc":
+                import numpy as np
+                from ezdxf.math import cubic_bezier_arc_parameters
+
+                ts = np.linspace(0, 1, 41)
+                for p0, p1, p2, p3 in cubic_bezier_arc_parameters(r["a0"], r["a1"]):
+                    P = [np.array([q.x, q.y]) for q in (p0, p1, p2, p3)]
+                    B = ((1 - ts) ** 3)[:, None] * P[0] + (3 * (1 - ts) ** 2 * ts)[:, None] * P[1] + (3 * (1 - ts) * ts ** 2)[:, None] * P[2] + (ts ** 3)[:, None] * P[3]
+                    n2 = (B ** 2).sum(1)
+                    if float(n2.min()) < 1 - 1e-12 or float(n2.max()) > 1.0004 ** 2:
+                        bad.append(f"{f['key']}: radial bounds {n2.min()} .. {n2.max()}")
+            elif r["op"] == "select":
+                doc, ents = build_doc(r["recipe"])
+                sp = r["shape"]
+                spec = (sp[0], tuple(sp[1]), tuple(sp[2]) if sp[0] == "window" else sp[2])
+                b = check_select(ents, spec, False) + check_select(ents, spec, True)
+                if b:
+                    bad.append(f"{f['key']}: {b[0][1]}")
             elif r["op"] == "doc":
                 build_doc(r["recipe"])
             elif r["op"] in ("algebra", "inside", "grow", "pts"):
